@@ -54,6 +54,8 @@ SR_FORMS = ['float', 'float', 'float', 'np.float64', '0-d array', 'int', 'np.int
 def check_sinusoid(ctx, case):
     from emd import spectra as SP
     method, sr, n, f, A, ph0, ncol = (case[k] for k in ('method', 'sr', 'n', 'f', 'A', 'ph0', 'ncol'))
+    if case.get('subnormal'):
+        A = float(np.ldexp(1.0 + (A % 1), -1023 - int(A * 7) % 17))
     t = np.arange(n) / sr
     if case.get('exact_zeros'):
         # a sine that starts at phase 0 on a time axis containing t == 0: samples that are exactly 0.0
@@ -114,6 +116,9 @@ def check_sinusoid(ctx, case):
                       % (em, MEAN_IF, f, sr), case)
         return
     ctx.count('accuracy_ok:' + method)
+    if case.get('subnormal'):
+        ctx.count('sinusoids_of_subnormal_amplitude')
+        return            # (power-of-two rescaling is not exact once samples are rounded to the subnormal grid)
     # exact scale behaviour
     c = case['c']
     IP2, IF2, IA2 = SP.frequency_transform(c * X, sr_arg, method)
@@ -158,6 +163,9 @@ def check_roundtrip(ctx, case):
     ph = SP.phase_from_freq(prof.copy(), sr_arg, phase_start=start)
     back = SP.freq_from_phase(ph, sr_arg)
     ctx.count('roundtrips')
+    if prof.dtype.kind in 'iu':
+        ctx.count('roundtrips_of_integer_profiles')
+    prof = np.asarray(prof, dtype=float)        # (the reference works on the same values in float64)
     if back.shape != prof.shape:
         ctx.violation('roundtrip-shape', 'round trip changed the shape %s -> %s' % (prof.shape, back.shape), case)
         return
@@ -211,9 +219,13 @@ def gen_case(rng):
         sr = float(gens.pick(rng, [1, 100, 512, 2000]))
         n = int(gens.pick(rng, [512, 1000, 4000, 4000, 30000])) if rng.random() > .02 else int(gens.pick(rng, [65537, 70001, 100003, 131071]))
         cyc = rng.uniform(10, n / 12)
+        sub = {}
+        if rng.random() < .03:
+            # an IMF whose samples are all subnormal numbers (amplitude 2**-1040 .. 2**-1023): still a finite sinusoid
+            sub = {'subnormal': True}
         return {'kind': 'sin', 'method': gens.pick(rng, ['hilbert', 'nht', 'quad']), 'sr': sr, 'n': n, 'f': float(cyc * sr / n),
                 'A': float(10 ** rng.uniform(-1.5, 1.5)), 'ph0': float(rng.uniform(0, 2 * np.pi)), 'ncol': int(rng.integers(1, 4)), 'c': c,
-                'sr_form': gens.pick(rng, SR_FORMS), 'exact_zeros': (int(rng.integers(1, 3)) if rng.random() < .12 else 0)}
+                'sr_form': gens.pick(rng, SR_FORMS), 'exact_zeros': (int(rng.integers(1, 3)) if rng.random() < .12 else 0), **sub}
     if r < .75:
         sr = float(gens.pick(rng, [1, 100, 512]))
         n = int(gens.pick(rng, [256, 512, 1000]))
@@ -249,6 +261,13 @@ def gen_case(rng):
             prof = prof - prof.mean()                          # sign-changing profile
         if rng.random() < .3:
             prof = np.tile(prof[:, None], (1, 2)) * np.array([1, 1.5])
+        if rng.random() < .15:
+            # a profile stored in Hz as integers at an audio-rate sampling frequency (values close to the top of a narrow type)
+            sr = float(gens.pick(rng, [44100, 96000, 192000]))
+            dt = gens.pick(rng, [np.int16, np.uint16, np.int32, np.int64])
+            top = min(np.iinfo(dt).max, sr * .45)
+            prof = np.round(np.abs(prof) / max(np.abs(prof).max(), 1e-300) * top * float(rng.uniform(.55, .99))).astype(dt)
+            const = False
         return {'kind': 'rt', 'profile': prof, 'sr': sr, 'phase_start': float(gens.pick(rng, [-np.pi, 0.0, 1.0])), 'const': bool(const) and prof.ndim == 1,
                 'sr_form': gens.pick(rng, SR_FORMS)}
     n = int(gens.pick(rng, [256, 512]))
